@@ -227,6 +227,9 @@ def gen_wcnf(r):
     # half of the instances are unweighted (the cardinality-network encoding supports only those)
     unweighted = r.random() < 0.5
     unit_w = r.choice([1, 1, 3])
+    # weighted instances: often a palette without weight 1 whose members are not multiples of the smallest
+    # (an improvement may then swap a heavy violated clause for a lighter one: gaps of less than the smallest weight)
+    palette = r.choice([None, None, [3, 4, 6, 9], [2, 3, 5], [5, 7], [4, 6, 7], [10, 15, 25, 12], [2, 5, 9, 100]])
     for _ in range(ns):
         x = r.random()
         if x < 0.06:
@@ -235,10 +238,15 @@ def gen_wcnf(r):
             c = [r.choice([-1, 1]) * r.randint(1, n)]  # unit
         else:
             c = [r.choice([-1, 1]) * r.randint(1, n) for _ in range(r.randint(2, 3))]
-        w = unit_w if unweighted else r.choice([1, 1, 1, 2, 3, 5, 9, r.randint(1, 9), r.choice([100, 1000])])
+        if unweighted:
+            w = unit_w
+        elif palette is not None:
+            w = r.choice(palette)
+        else:
+            w = r.choice([1, 1, 1, 2, 3, 5, 9, r.randint(1, 9), r.choice([100, 1000])])
         soft.append((w, c))
         if r.random() < 0.1:
-            soft.append((unit_w if unweighted else r.randint(1, 9), list(c)))   # duplicate soft clause
+            soft.append((unit_w if unweighted else (r.choice(palette) if palette else r.randint(1, 9)), list(c)))   # duplicate soft clause
     return n, hard, soft, (unit_w if unweighted else 0)
 
 
